@@ -70,7 +70,7 @@ impl Prop for C08 {
         "C08"
     }
     fn rule(&self) -> String {
-        "Generated: triples (a, b, c) of Decimal representations - independent, same value at different scales (c*10^k), adjacent values (+-1 ulp at the finer scale), pairs whose scale alignment overflows i128 with every sign combination including zero - and (Decimal, integer) pairs for all 9 integer types incl. integers whose scaling by 10^p overflows. \
+        "Generated: triples (a, b, c) of Decimal representations - independent, same value at different scales (c*10^k), adjacent values (+-1 ulp at the finer scale), pairs whose scale alignment overflows i128 with every sign combination including zero - and (Decimal, integer) pairs for all 9 integer types incl. integers whose scaling by 10^p overflows and integers floor(B/10^s)+-1 for machine boundaries B (2^127-1, 2^64, 2^63, 2^32, 2^31) against the same integer written with s fractional zeros +-1 ulp. \
          For every ordered pair: ==, !=, <, <=, >, >=, partial_cmp (never None), cmp (never panics), min, max against the sign of a*10^q - b*10^p in big integers; laws on the triple (reflexive, antisymmetric, transitive, cmp consistent with ==). \
          rkyv: to_bytes -> check_archived_root -> deserialize is the identity on (coefficient, scale); Archived/Archived and Archived/Decimal comparisons in both orders equal the comparison of the originals. \
          Non-trivial: the two operands carry different scales. Distinct: hash of the case."
@@ -107,6 +107,33 @@ impl Prop for C08 {
                     _ => D::new(off, s),
                 };
                 Case::Int { d, i }
+            }),
+            // the integer sits exactly where its scaling by 10^s reaches a machine boundary:
+            // i = floor(B / 10^s) + d0 for B in {2^127-1, 2^64, 2^64-1, 2^63, 2^63-1, 2^32, 2^31},
+            // the Decimal is i * 10^s + e at scale s (the same integer written with s fractional zeros, +-1 ulp)
+            2 => (0u8..7, 1u8..=18, -1i128..=1, -1i128..=1, any::<bool>(), 0u8..9).prop_map(|(b, s, d0, e, neg, tyk)| {
+                let bound: i128 = match b {
+                    0 => MAXC,
+                    1 => 1i128 << 64,
+                    2 => (1i128 << 64) - 1,
+                    3 => 1i128 << 63,
+                    4 => (1i128 << 63) - 1,
+                    5 => 1i128 << 32,
+                    _ => 1i128 << 31,
+                };
+                let p = 10i128.pow(s as u32);
+                let mut iv = bound / p + d0;
+                if neg {
+                    iv = -iv;
+                }
+                // an integer type that can hold the value: the requested one if it fits, else i128
+                let (lo, hi) = int_range(tyk);
+                let ty = if iv >= lo && iv <= hi { tyk } else { 8 };
+                let d = match iv.checked_mul(p).and_then(|c| c.checked_add(e)) {
+                    Some(c) if c != i128::MIN && c.unsigned_abs() <= MAXC as u128 => D::new(c, s),
+                    _ => D::new(if iv < 0 { -MAXC } else { MAXC }, s),
+                };
+                Case::Int { d, i: I { ty, v: iv } }
             }),
         ]
         .boxed()
